@@ -1,0 +1,11 @@
+//go:build verif
+
+package operator
+
+var VerifGate func(point, id string)
+
+func verifGate(point, id string) {
+	if f := VerifGate; f != nil {
+		f(point, id)
+	}
+}
